@@ -17,7 +17,8 @@ for f in F.fns_matching(rx):
         if cs.bb not in f.cfg.live: continue
         if '--all' not in sys.argv and is_transparent_call(cs): continue
         print("  bb%d L%s %s ga=%s" % (cs.bb, cs.line, short(cs.target_q) if cs.q else 'indirect', [short(g) for g in cs.ga][:3]))
-        print("       sig:", sig_strs(f, cs.bb))
+        print("       guards:", guard_strs(f, cs.bb, True))
+        if '--sig' in sys.argv: print("       sig:", sig_strs(f, cs.bb))
         if '--trees' in sys.argv:
             for i in range(len(cs.args)):
                 print("       arg%d:" % i, show(strip(f.flow.arg_tree(cs, i))))
